@@ -33,6 +33,9 @@ pub struct HedgeCase {
     /// steps make the hedging future see its timers late, as on a stalled executor)
     #[serde(default = "one")]
     pub step_ms: u64,
+    /// call max_hedged_attempts() on the builder after the delay setter instead of before it
+    #[serde(default)]
+    pub max_last: bool,
 }
 
 fn one() -> u64 {
@@ -58,13 +61,15 @@ fn case_strategy(_tier: Tier) -> BoxedStrategy<HedgeCase> {
         prop::collection::vec((lat, prop::bool::weighted(0.45)), 5),
         prop::collection::vec(any::<u8>(), 0..=8),
         prop_oneof![6 => Just(1u64), 1 => Just(3u64), 1 => Just(7u64), 1 => Just(25u64), 1 => Just(60u64), 1 => 2u64..=120],
+        any::<bool>(),
     )
-        .prop_map(|(max, delay, attempts, order, step_ms)| HedgeCase {
+        .prop_map(|(max, delay, attempts, order, step_ms, max_last)| HedgeCase {
             max,
             delay,
             attempts,
             order,
             step_ms,
+            max_last,
         })
         .boxed()
 }
@@ -118,7 +123,10 @@ async fn interp(case: &HedgeCase) -> Verdict {
             .collect(),
     );
     let inner = Scripted::from_table(log.clone(), table, Step::err(0, 5));
-    let mut b = HedgeLayer::builder().name("vcheck").max_hedged_attempts(case.max);
+    let mut b = HedgeLayer::builder().name("vcheck");
+    if !case.max_last {
+        b = b.max_hedged_attempts(case.max);
+    }
     b = match &case.delay {
         Delay::Fixed(ms) => b.delay(Duration::from_millis(*ms)),
         Delay::Immediate => b.no_delay(),
@@ -129,6 +137,9 @@ async fn interp(case: &HedgeCase) -> Verdict {
             })
         }
     };
+    if case.max_last {
+        b = b.max_hedged_attempts(case.max);
+    }
     let layer = b.build();
     let mut svc = layer.layer(inner.clone());
     let req = Req {
